@@ -49,6 +49,9 @@ def build(d):
     if k == "call":
         args = tuple(build(x) for x in d[2])
         kw = d[3] if len(d) > 3 else {}
+        if isinstance(kw, list):
+            # explicit keyword order: [[name, expr], ...]
+            kw = {n: v for n, v in kw}
         if kw:
             from immutabledict import immutabledict
             return p.CallWithKwargs(p.Variable(d[1]), args,
@@ -131,13 +134,20 @@ def to_dsl(e):
     raise ValueError("to_dsl: %s %r" % (n, e))
 
 
+def kwitems(d):
+    """Keyword arguments of a call term as a list of (name, term) in their
+    written order (the DSL allows a dict or an explicit list of pairs)."""
+    kw = d[3] if len(d) > 3 else {}
+    return list(kw.items()) if isinstance(kw, dict) else [(x[0], x[1]) for x in kw]
+
+
 def size(d):
     if d[0] in ("v", "c"):
         return 1
     if d[0] == "cmp":
         return 1 + size(d[2]) + size(d[3])
     if d[0] == "call":
-        return 1 + sum(size(x) for x in d[2]) + sum(size(v) for v in (d[3] if len(d) > 3 else {}).values())
+        return 1 + sum(size(x) for x in d[2]) + sum(size(v) for _, v in kwitems(d))
     return 1 + sum(size(x) for x in d[1:])
 
 
@@ -153,7 +163,7 @@ def subterms(d, path=()):
     elif k == "call":
         for i, x in enumerate(d[2]):
             yield from subterms(x, path + (2, i))
-        for n, v in (d[3] if len(d) > 3 else {}).items():
+        for n, v in kwitems(d):
             yield from subterms(v, path + (3, n))
     else:
         for i in range(1, len(d)):
@@ -171,9 +181,8 @@ def replace_at(d, path, new):
             args[path[1]] = replace_at(args[path[1]], path[2:], new)
             d[2] = args
         else:
-            kw = dict(d[3])
-            kw[path[1]] = replace_at(kw[path[1]], path[2:], new)
-            d[3] = kw
+            kw = [[n, (replace_at(v, path[2:], new) if n == path[1] else v)] for n, v in kwitems(d)]
+            d[3] = kw if isinstance(d[3], list) else dict((n, v) for n, v in kw)
         return d
     d[k] = replace_at(d[k], path[1:], new)
     return d
